@@ -486,18 +486,23 @@ def concat_gapless_blocks(blocks, cigar_tuples):
     current_block = None
     deletions_before_block = 0
 
-    while cigar_index < len(cigar_tuples) and block_index < len(blocks):
+    while cigar_index < len(cigar_tuples):
         # init new block
         cigar_event = CigarEvent(cigar_tuples[cigar_index][0])
         if current_block is None:
             # init new block from match
             if cigar_event in CigarEvent.get_match_events():
+                if block_index >= len(blocks):
+                    break
                 current_block = (blocks[block_index][0] - deletions_before_block, blocks[block_index][1])
                 deletions_before_block = 0
                 block_index += 1
             # keep track of deletions before matched block
             elif cigar_event == CigarEvent.deletion:
-                deletions_before_block = cigar_tuples[cigar_index][1]
+                deletions_before_block += cigar_tuples[cigar_index][1]
+            # deletions that are separated from the next matched block by an intron do not belong to it
+            elif cigar_event == CigarEvent.skipped:
+                deletions_before_block = 0
         # found intron, add current block
         elif cigar_event == CigarEvent.skipped:
             resulting_blocks.append(current_block)
@@ -510,6 +515,8 @@ def concat_gapless_blocks(blocks, cigar_tuples):
             # if abs(current_block[1] - blocks[block_index][0]) > 1:
             #    logger.debug("Distant blocks")
             #    logger.debug(current_block, blocks[block_index])
+            if block_index >= len(blocks):
+                break
             current_block = (current_block[0], blocks[block_index][1])
 
             block_index += 1
